@@ -204,7 +204,9 @@ def _eliminate_returns(stmts: List[ast.stmt], result) -> Tuple[List[ast.stmt], b
 
 class Inliner:
     def __init__(self, repo: Repo, ci: Optional[ClassInfo], sf: Optional[SourceFile] = None, depth: int = 3,
-                 also: Iterable[str] = (), exclude: Iterable[str] = (), exact: bool = False):
+                 also: Iterable[str] = (), exclude: Iterable[str] = (), exact: bool = False,
+                 receivers: Optional[Dict[str, ClassInfo]] = None):
+        self.receivers = dict(receivers or {})      # text of a receiver expression -> its class (`module` -> Module in Project.chunks)
         self.repo = repo
         self.ci = ci
         self.sf = sf or (ci.file if ci else None)
@@ -259,6 +261,28 @@ class Inliner:
                         if isinstance(st, ast.FunctionDef) and st.name == imp[1]:
                             return self._foreign(st, other), False
             return None
+        if isinstance(f, ast.Attribute) and norm(f.value) in self.receivers:
+            # a method of another object whose class is known to the caller of the inliner (the module in a project's loop)
+            k = self.receivers[norm(f.value)]
+            name = f.attr
+            if name in self.exclude or name in ("iff_chunks", "specialized_iff_chunks", "chunks", "get_raw", "set_raw", "attached"):
+                return None
+            r = self.repo.lookup(k, name)
+            if r is None or r[1] != "method":
+                return None
+            owner, fn = r[0], r[2]
+            saved, self.exact = self.exact, False
+            try:
+                if self._overridden(owner, name):
+                    return None
+            finally:
+                self.exact = saved
+            d = _decos(fn)
+            if "staticmethod" in d:
+                return fn, False
+            if not _is_generator(fn) and not _is_private(name):
+                return None                  # public non-generator methods of the other object stay calls
+            return fn, True
         if isinstance(f, ast.Attribute) and self.ci is not None:
             name = f.attr
             if not (_is_private(name) or name in self.also) or name in self.exclude:
@@ -736,10 +760,10 @@ def _always_returns(stmts: List[ast.stmt]) -> bool:
 
 
 def _flatten_only(repo: Repo, ci: Optional[ClassInfo], fn: ast.FunctionDef, sf: Optional[SourceFile] = None, depth: int = 3,
-                  also: Iterable[str] = (), exclude: Iterable[str] = (), exact: bool = False) -> ast.FunctionDef:
+                  also: Iterable[str] = (), exclude: Iterable[str] = (), exact: bool = False, receivers=None) -> ast.FunctionDef:
     """Copy of `fn` with private helpers inlined (see module docstring).  Never raises: what cannot be inlined stays a call."""
     try:
-        return Inliner(repo, ci, sf, depth, also, exclude, exact).flatten(fn)
+        return Inliner(repo, ci, sf, depth, also, exclude, exact, receivers).flatten(fn)
     except RecursionError:
         return fn
 
